@@ -1627,6 +1627,15 @@ def havoc_value(it, name, kind, cur):
     if isinstance(kind, tuple) and kind[0] == "list":
         ety = kind[1]
         return SymList(ctx.fresh(name + "_len", TInt), z3.Const(ctx.fresh_name(name + "_arr"), z3.ArraySort(z3.IntSort(), ety.sort())), ety)
+    if isinstance(kind, tuple) and kind[0] == "dict":
+        kty, vty = kind[1], kind[2]
+        return SymDict(
+            z3.Const(ctx.fresh_name(name + "_has"), z3.ArraySort(kty.sort(), z3.BoolSort())),
+            z3.Const(ctx.fresh_name(name + "_val"), z3.ArraySort(kty.sort(), vty.sort())),
+            kty,
+            vty,
+            name,
+        )
     if kind == "inplace":
         havoc_cell(it, name, cur)
         return cur
